@@ -137,6 +137,9 @@ def _layouts():
         "v2-pq-swapped": (2, ["p", "q"], lambda d: {"p": d[1], "q": d[0]}),
         "v3-sel-like": (3, None, lambda d: {"x": d[0], "y": d[1], "z": "w"}),
         "v3-abc-cyclic": (3, ["a", "b", "c"], lambda d: {"a": "w", "b": d[0], "c": d[1]}),
+        # the same pairing written with its keys in the order of the axes they point to / in reversed order
+        "v3-abc-cyclic-axisorder": (3, ["a", "b", "c"], lambda d: {"b": d[0], "c": d[1], "a": "w"}),
+        "v2-pq-swapped-keys-reversed": (2, ["p", "q"], lambda d: {"q": d[0], "p": d[1]}),
         "v3-swapped-none": (3, None, lambda d: {"x": d[1], "y": d[0], "z": None}),
         "v3-nomap": (3, ["p", "q", "r"], lambda d: {}),
         "v3-from-sel": (3, None, "sel"),
